@@ -1178,7 +1178,8 @@ func parseCase(line string) (Case, bool) {
 
 func main() {
 	env := vlib.GetEnv()
-	res := vlib.NewResult("C19", "one case = one call of one helper (31 sub-commands over xslices, xsort, xmaps, xmath, xerrors; extras = the 40 thin wrappers / one-line combinators checked by monitors only); "+
+	res := vlib.NewResult("C19", "one case = one call of one helper (73 sub-commands, one per exported helper of xslices, xsort, xmaps, xmath, xerrors, each compared with its Lean model; "+
+		"extras = the documentation monitors of the 42 small loops / thin wrappers on one input; slices with spare capacity (cap = len, len+1, len+3, ...) for the in-place and aliasing effects); "+
 		"random cases with lengths 0..1000, arguments in [-2, len+2], orders with ties (key = x/c, optionally reversed), predicate and "+
 		"equivalence-class tables, error chains incl. already wrapped / fmt.Errorf(%w) / non-comparable leaves; plus the corpus; "+
 		"non-trivial = the arguments hold at least 3 list elements / chain links (always for abs, clamp, chunk, shrink); distinct = different protocol line. "+
